@@ -92,26 +92,12 @@ def rule_same_reactions(ctx):
 def rule_same_filter(ctx):
     """R-C14-2."""
     FS, FR = ctx.prog.enum("FileState"), ctx.prog.enum("FileRole")
-    rel = ctx.prog.fold("workflow", "_RELEVANT_STATES")
-    excl = set()
-    for s in ctx.sql.census.sites_in("startup.rescan_files"):
-        for p in s.params:
-            if isinstance(p, tuple):
-                excl |= set(p)
-    comp = {s.value for s in FS} - excl
-    ctx.check({s.value for s in rel} == comp, "workflow._RELEVANT_STATES", "watch relevance = states the startup rescan examines", f"watch: {sorted(s.name for s in rel)}, restart examines {sorted(FS(v).name for v in comp)}: a change is seen by one side only", "same set")
+    shared.check_file_change_filters_agree(ctx, "a change is seen by one side only")
     dur = ctx.prog.fold("workflow", "_RELEVANT_STATES_DURING_BUILD")
     roles = ctx.prog.fold("enums", "FILE_STATES_BY_ROLE")
     ctx.check(set(dur) <= set(roles[FR.STATIC]), "workflow._RELEVANT_STATES_DURING_BUILD", "during a build only static files are news", f"{sorted(s.name for s in dur)}", "⊆ STATIC role")
     cr = ctx.prog.func("workflow.Workflow.change_is_relevant")
-    src = _norm(ast.unparse(cr.node))
-    ctx.check("file = self.find_attached(File, path)" in src and "return file.get_state() in _relevant_states(during_build)" in src and "return self.matches_any_glob(path)" in src, cr.fq, "attached node decides by state; otherwise the registered patterns decide", "relevance test changed", "ok")
-    rp = ctx.prog.func("workflow.Workflow.relevant_paths_under")
-    txt = " ".join(s.text for s in ctx.sql.stmts_in(rp.fq))
-    ctx.check("AND NOT detached" in txt and "state IN (" in txt, rp.fq, "removed directory: attached files in relevant states", "selection changed", "same filter")
-    rf = ctx.prog.func("startup.rescan_files")
-    txt = " ".join(s.text for s in ctx.sql.stmts_in(rf.fq))
-    ctx.check("NOT detached" in txt, rf.fq, "restart rescans attached files only (as the watcher listens for attached files only)", "", "attached")
+    ctx.check(any(callee_name(c) == "matches_any_glob" for c in calls_in(cr.node)), cr.fq, "a path without a relevant node of its own is judged by the registered patterns", "glob fallback removed", "matches_any_glob")
     # sibling selectors for glob relevance: restart side includes detached registrations, watch side must too
     restart_incl = any(callee_name(c) == "nglob_registrations" and kwarg(c, "include_detached") is not None for c in calls_in(ctx.prog.func("startup.rescan_nglobs").node))
     mg = ctx.prog.func("workflow.Workflow.matches_any_glob")
@@ -230,7 +216,7 @@ def rule_watched_where_restart_looks(ctx):
 
 RULES = [
     Rule("R-C14-1", "same reactions on both sides", rule_same_reactions, min_instances=10),
-    Rule("R-C14-2", "same relevance filter", rule_same_filter, min_instances=6),
+    Rule("R-C14-2", "same relevance filter", rule_same_filter, min_instances=5),
     Rule("R-C14-3", "event folding keeps the sets disjoint", rule_event_folding, min_instances=15),
     Rule("R-C14-4", "the watcher looks where a restart looks", rule_watched_where_restart_looks, min_instances=3),
 ]
